@@ -282,6 +282,7 @@ func cmdWorker(args []string) int {
 	shard := fs.Int("shard", 0, "shard index")
 	of := fs.Int("of", 1, "shard count")
 	out := fs.String("out", "", "output file")
+	pool := fs.String("pool", "", "shared pool directory for dynamic load balancing")
 	fs.Parse(args)
 	wo := &workerOut{}
 	defer func() {
@@ -320,10 +321,13 @@ func cmdWorker(args []string) int {
 			mine = append(mine, p)
 		}
 	}
-	if len(mine) == 0 {
-		wo.Raw = &sym.Raw{Entry: *entry, PathEnds: map[string]int{}, Inconc: map[string]int{}}
-		wo.Stats = s.m.St
-		return 0
+	if *pool != "" {
+		fsch := newFileSched(*pool, *shard, *of)
+		defer fsch.done()
+		s.m.Sched = fsch
+	}
+	if mine == nil {
+		mine = [][]int64{}
 	}
 	wo.Raw = s.m.Explore(fn, mine, 0)
 	wo.Stats = s.m.St
@@ -339,6 +343,9 @@ func (s *session) runWorkers(cf *commonFlags, entry string, pending [][]int64, j
 	if err := os.WriteFile(pf, b, 0o644); err != nil {
 		return nil, err
 	}
+	pool := filepath.Join(work, entry+".pool")
+	os.RemoveAll(pool)
+	os.MkdirAll(pool, 0o755)
 	outs := make([]*workerOut, jobs)
 	errs := make([]error, jobs)
 	var wg sync.WaitGroup
@@ -350,13 +357,15 @@ func (s *session) runWorkers(cf *commonFlags, entry string, pending [][]int64, j
 			of := filepath.Join(work, fmt.Sprintf("%s.out.%d.json", entry, i))
 			os.Remove(of)
 			args := []string{"worker", "-id", *cf.id, "-tier", s.tier, "-verif", s.verif, "-repo", s.repo, "-solver", *cf.solver,
-				"-entry", entry, "-prefixes", pf, "-shard", strconv.Itoa(i), "-of", strconv.Itoa(jobs), "-out", of}
+				"-entry", entry, "-prefixes", pf, "-shard", strconv.Itoa(i), "-of", strconv.Itoa(jobs), "-out", of, "-pool", pool}
 			if *cf.noMerge {
 				args = append(args, "-nomerge")
 			}
 			cmd := exec.Command(self, args...)
 			cmd.Stderr = os.Stderr
 			cmd.Run()
+			// whatever happened to the process, it no longer produces work
+			os.WriteFile(filepath.Join(pool, fmt.Sprintf("status-%d", i)), []byte("done"), 0o644)
 			ob, err := os.ReadFile(of)
 			if err != nil {
 				errs[i] = fmt.Errorf("worker %d produced no output", i)
@@ -504,6 +513,8 @@ func cmdRun(args []string) int {
 					case c.viol.Kind == "assert" && strings.HasPrefix(out, "assert-failed") && strings.Contains(out, strconv.Quote(c.viol.Label)):
 						c.viol.Reproduced = true
 					case c.viol.Kind == "panic" && strings.HasPrefix(out, "panic"):
+						c.viol.Reproduced = true
+					case c.viol.Kind == "alloc" && (strings.HasPrefix(out, "alloc-exceeded") || strings.HasPrefix(out, "panic")):
 						c.viol.Reproduced = true
 					}
 				} else {
